@@ -499,6 +499,20 @@ func (c *Contracts) parseFile(path, pkgPath string) error {
 				txt = strings.TrimSpace(strings.TrimPrefix(txt, "before"))
 			}
 			isDef := false
+			if strings.HasPrefix(txt, "at \"") {
+				// assert at "<source text>": expr
+				rest := txt[len("at \""):]
+				q := strings.Index(rest, "\":")
+				if q < 0 {
+					return fmt.Errorf("%s:%d: malformed 'at' clause", path, r.line)
+				}
+				cl, err := mk(strings.TrimSpace(rest[q+2:]), r.line)
+				if err != nil {
+					return err
+				}
+				cur.Asserts = append(cur.Asserts, &SiteAssert{When: "at", Pattern: rest[:q], Clause: cl, Assume: r.kw == "assume"})
+				continue
+			}
 			if strings.HasPrefix(txt, "def ") {
 				isDef = true
 				when = "def"
